@@ -881,7 +881,7 @@ Lemma merge_keeps_unpinned :
   sget 0 snap = None /\ sget 0 (restore_merge cur snap) <> None /\ sget 0 (restore_onto cur snap) = None.
 Proof. vm_compute. repeat split; congruence. Qed.
 
-(* non-vacuity: a clean, forward, atomic schedule with an install onto a non-empty replica and a restart *)
+(* non-vacuity: a clean, pinned, atomic schedule with an install onto a non-empty replica and a restart *)
 Definition demo_events : list mevent :=
   [MCommit (LPin (wpin 0 1)); MApply 0; MApply 1; MCommit (LUnpin (wpin 0 0)); MApply 0; MCommit (LPin (wpin 1 1)); MApply 0;
    MSnapReq 0; MPersist 0; MRestore 1 0 0; MRestart 0; MRestore 0 0 0].
